@@ -70,6 +70,11 @@ def bootstrap_deps():
              "--find-links", "/opt/veriftools/wheels", "--target", DEPS,
              "icontract"],
             env=env, stdout=subprocess.PIPE, stderr=subprocess.STDOUT, timeout=300)
+        # optional workload generator (coverage-guided mutation); absence is tolerated
+        subprocess.run(
+            [sys.executable, "-m", "pip", "install", "-q", "--no-index",
+             "--find-links", "/opt/veriftools/wheels", "--target", DEPS, "atheris"],
+            env=env, stdout=subprocess.PIPE, stderr=subprocess.STDOUT, timeout=300)
         return r.returncode == 0 and os.path.isdir(marker)
 
 
